@@ -95,9 +95,10 @@ structure Srv where
 
 def Srv.init (fr : OFr) (te : Bool) : Srv := ⟨fr, te, [], 0, 0, Run.init, [], false, false, false, none⟩
 
-/-- `flags.chunked` as set by processReplyHeader(): the header has Transfer-Encoding (the fixed variant also wants a body to be expected) -/
+/-- `flags.chunked` as set by processReplyHeader(): the parsed header still has Transfer-Encoding (HttpHeader::parse() deletes
+Content-Length and Transfer-Encoding of 1xx and 204 replies: `ProhibitsContentLength`); the fixed variant also wants a body to be expected -/
 def serverTe (P : Params) (isHead : Bool) (status : Nat) (chunkedHdr : Bool) : Bool :=
-  chunkedHdr && (expectsBody isHead status || !P.dropExtras)
+  chunkedHdr && !(status == 204 || status < 200) && (expectsBody isHead status || !P.dropExtras)
 
 inductive SEv
   | data (seg : Bytes)    -- Comm::OK read of seg (the first one is what followed the header in its read; may be empty)
@@ -113,15 +114,15 @@ def writeBody (P : Params) (s : Srv) (seg : Bytes) : Srv :=
   match s.fr with
   | .cl n =>
     let extras := s.seen - s.truncated - n                       -- truncateVirginBody()
-    let s1 := { s with truncated := s.truncated + extras, stored := s.stored ++ seg.take (seg.length - extras) }
-    if n = s1.seen - s1.truncated then { s1 with whole := true }
-    else if s.eof then { s1 with failed := true } else s1
-  | .close =>
-    let s1 := { s with stored := s.stored ++ seg }
-    if s.eof then { s1 with whole := true } else s1
-  | .none =>
+    let trunc := s.truncated + extras
+    let isWhole := decide (n = s.seen - trunc)                    -- "http parsed Content-Length body bytes"
+    { s with truncated := trunc, stored := s.stored ++ seg.take (seg.length - extras),
+             whole := s.whole || isWhole, failed := s.failed || (!isWhole && s.eof) }   -- else if (eof) markPrematureReplyBodyEofFailure()
+  | .close =>                                                    -- "http parsed body ending with expected/required EOF"
+    { s with stored := s.stored ++ seg, whole := s.whole || s.eof }
+  | .none =>                                                     -- "http parsed header-only reply", after storing inBuf
     if P.dropExtras then { s with truncated := s.seen, whole := true }
-    else { s with stored := s.stored ++ seg, whole := true }      -- "http parsed header-only reply", after storing inBuf
+    else { s with stored := s.stored ++ seg, whole := true }
   | .chunked => s                                                  -- unreachable: te is set for chunked replies
 
 /-- `HttpStateData::decodeAndWriteReplyBody()` with `seg` appended to the unparsed rest -/
@@ -130,9 +131,7 @@ def decodeBody (P : Params) (s : Srv) (seg : Bytes) : Srv :=
   match d.verdict with
   | .reject _ => finish { s with dec := d }                       -- returned false: serverComplete()
   | .done => { s with dec := d, stored := d.out, whole := true }  -- lastChunk = 1
-  | _ =>
-    let s1 := { s with dec := d, stored := d.out }
-    if s.eof then { s1 with failed := true } else s1
+  | _ => { s with dec := d, stored := d.out, failed := s.failed || s.eof }   -- else if (eof) markPrematureReplyBodyEofFailure()
 
 /-- `persistentConnStatus() != INCOMPLETE_MSG` -/
 def connDone (s : Srv) : Bool :=
